@@ -316,10 +316,116 @@ def run(ctx, deep=False):
     for key, (gen, ci, target, ident, method, args, why, fr, s) in worst.items():
         ctx.violation(key, "AirTouch %d %s %d %s(%s): %s (frame %s; vendor reading: %s)" % (gen, target, ident, method, ", ".join(args), why, fr, s[:300]),
                       kind="input", call=[gen, ci, target, ident, method, args], implementation_output=fr, spec_verdict=why)
+    concurrent(ctx)
     if metas:
         ctx.sample({"call": [str(x) for x in metas[0][:6]], "frame": metas[0][9].hex(), "vendor_reading": spec[0][:200]})
     ctx.assumptions += ["quick-timer control messages are not in the vendor documents (reverse-engineered upstream): only their addressing, length and check bytes are judged here; their content is covered by C11/C03",
                         "Python's round() is used as is by the intended-meaning computation (same interpreter)"]
+
+
+def concurrent(ctx):
+    """several control calls in flight at once on a congested link (the transport has paused writing, `drain()` really suspends):
+    what the console receives must still be whole frames, one per call, each with the meaning of its call"""
+    import asyncio
+    import fullstack
+    import pyairtouch.api as A
+    from vloop import TICK
+    for gen in (4, 5):
+        for pause_passes in (0, 1, 2, 3, 5, 8):
+            env = fullstack.Env(gen, dict(inst=fullstack.INST))
+            loop = env.loop
+            loop.max_passes = 500000
+            wire = bytearray()
+            state = {"mark": None}
+
+            def on_net(e, wire=wire, state=state):
+                if e[0] == "write" and state["mark"] is not None:
+                    wire.extend(e[3])
+            env.net.listeners.append(on_net)
+            calls = [("ac", 0, "set_power", ["TURN_ON"]), ("ac", 0, "set_target_temperature", ["23.0"]), ("zone", 0, "set_damper_percentage", ["35"]),
+                     ("ac", 0, "set_mode", ["HEAT", "0"])]
+
+            async def main(env=env, state=state, pause_passes=pause_passes):
+                ok = await env.at.init()
+                if not ok:
+                    return False
+                await asyncio.sleep(4 * TICK)            # let the first heartbeat go out
+                conn = env.net.conns[-1]
+                state["mark"] = 0
+                conn.block_writes()
+                ac = list(env.at.air_conditioners)[0]
+                zone = list(ac.zones)[0]
+                ts = [loop.create_task(ac.set_power(A.AcPowerControl.TURN_ON)), loop.create_task(ac.set_target_temperature(23.0)),
+                      loop.create_task(zone.set_damper_percentage(35)), loop.create_task(ac.set_mode(A.AcMode.HEAT))]
+                for _ in range(pause_passes):
+                    await asyncio.sleep(0)
+                conn.unblock_writes()
+                await asyncio.gather(*ts, return_exceptions=True)
+                await asyncio.sleep(4 * TICK)
+                state["mark"] = None
+                await env.at.shutdown()
+                return True
+            asyncio.set_event_loop(loop)
+            try:
+                ok = loop.run_until_complete(main())
+            finally:
+                asyncio.set_event_loop(None)
+                loop.close()
+            ctx.case(("concurrent", gen, pause_passes))
+            if not ok:
+                ctx.tie_broken("C04:console-script", "the full-stack console no longer initialises the AirTouch %d object" % gen)
+                continue
+            # split the byte stream the console saw into frames by the documented layout
+            data = bytes(wire)
+            frames, i, why = [], 0, None
+            pre = bytes([0x55, 0x55]) if gen == 4 else bytes([0x55, 0x55, 0x55, 0xAB])
+            while i < len(data):
+                if gen == 5:
+                    if data[i:i + 4] != pre or len(data) < i + 10:
+                        why = "bytes at offset %d are not the start of a frame" % i
+                        break
+                    i += 10
+                if data[i:i + (2 if gen == 4 else 4)] != (pre if gen == 4 else bytes([0x55, 0x55, 0x55, 0xAA])):
+                    why = "bytes at offset %d are not the start of a frame" % i
+                    break
+                h = i + (2 if gen == 4 else 4)
+                if len(data) < h + 6:
+                    why = "truncated header at offset %d" % i
+                    break
+                ln = data[h + 4] << 8 | data[h + 5]
+                end = h + 6 + ln + 2
+                if len(data) < end:
+                    why = "frame at offset %d announces %d payload bytes, the stream ends before" % (i, ln)
+                    break
+                frames.append((data[h:h + 6], data[h + 6:h + 6 + ln], data[end - 2:end]))
+                i = end
+            if why is None:
+                crcs = ctx.oracle(["crc %s" % (hd + pl).hex() for hd, pl, _ in frames]) if frames else []
+                for (hd, pl, ck), c in zip(frames, crcs):
+                    if ck.hex() != c.strip().lower()[-4:]:
+                        why = "a frame with wrong check bytes (%s, CRC-16/MODBUS is %s)" % (ck.hex(), c)
+                if why is None and len(frames) != len(calls):
+                    why = "%d frames for %d calls" % (len(frames), len(calls))
+            if why is None:
+                st = {"id": 0, "min": fullstack.INST["acs"][0]["lo"], "max": fullstack.INST["acs"][0]["hi"]}
+                want = []
+                for (target, ident, method, args) in calls:
+                    kind, exp, ch = intended(gen, target, method, args, dict(st))
+                    want.append((kind, exp, ch))
+                lines = []
+                for hd, pl, _ in frames:
+                    kind = ({0x2A: "2A", 0x2C: "2C"}.get(hd[3]) if gen == 4 else ({0x20: "C020", 0x22: "C022"}.get(pl[0]) if hd[3] == 0xC0 and pl else None))
+                    lines.append("spec %d %s %s" % (gen, kind, pl.hex()) if kind else "crc -")
+                got = [parse(x) for x in ctx.oracle(lines)]
+                for kind, exp, ch in want:
+                    hit = [g for g in got if all(g[0].get(k) == v for k, v in exp.items()) and g[1] == ch]
+                    if not hit:
+                        why = "no frame on the wire means %s (changes %s); frames read: %s" % (exp, sorted(ch), [g[0] for g in got])
+                        break
+            if why:
+                ctx.violation("C04:%d:concurrent" % gen, "AirTouch %d, four control calls in flight on a congested link (writing resumed after %d loop passes): %s (bytes on the wire %s)" % (
+                    gen, pause_passes, why, data.hex()), kind="history", level="concurrent", gen=gen, pause_passes=pause_passes, implementation_output=data.hex(), spec_verdict=why)
+                break
 
 
 def search(ctx):
